@@ -379,6 +379,10 @@ FAMILIES = {
     # of the *centre* are distinguishable on the substrate
     "2+2": dict(centre=[1, 2, 3, 4], h={1: 1, 2: 1, 3: 1, 4: 1},
                 G=[(1, 2, 2), (3, 4, 2)], H=[(1, 2, 1), (3, 4, 1), (2, 3, 1), (1, 4, 1)], subs=[(5, 1), (6, 3)]),
+    # the same centre with the substituents on neighbouring atoms: backwards (cycloreversion) the two ways of opening the
+    # ring give different products
+    "2+2-adj": dict(centre=[1, 2, 3, 4], h={1: 1, 2: 1, 3: 1, 4: 1},
+                    G=[(1, 2, 2), (3, 4, 2)], H=[(1, 2, 1), (3, 4, 1), (2, 3, 1), (1, 4, 1)], subs=[(5, 1), (6, 2)]),
     "DA": dict(centre=[1, 2, 3, 4, 5, 6], h={1: 1, 2: 1, 3: 1, 4: 1, 5: 1, 6: 1},
                G=[(1, 2, 2), (2, 3, 1), (3, 4, 2), (5, 6, 2)], H=[(1, 2, 1), (2, 3, 2), (3, 4, 1), (4, 5, 1), (5, 6, 1), (1, 6, 1)],
                subs=[(7, 1), (8, 5)]),
